@@ -1,5 +1,6 @@
 mod core;
 mod gen_diff;
+mod gen_glob;
 mod gen_lookup;
 mod gen_lua;
 mod gen_soup;
@@ -40,6 +41,7 @@ fn main() -> anyhow::Result<()> {
             let rows = core::par_cases(a.n, a.seed, |ctx, seed, i| gen_lua::generate(ctx, seed, i, max_blocks));
             core::write_out(&a.out, &rows)
         }
+        Some("glob") => core::write_out(&a.out, &gen_glob::rows(a.seed, a.n)),
         Some("lookup") => core::write_out(&a.out, &gen_lookup::rows(a.seed, a.n)),
         Some("multi") => {
             let flags = a.rest.first().map(|s| s == "flags").unwrap_or(false);
